@@ -549,6 +549,13 @@ def gen_any(g, depth, budget=None, kinds=None):
             inner = gen_leaf(g)  # a distribution mapped directly (normal.vmap(...) @ "v")
         else:
             inner = gen_static(g, d1, budget=per) if (vsi > 0 and rng.random() < vsi) else sub(per)
+        if P.get("kernel_normal", 0.0) > 0 and inner["k"] == "static" and rng.random() < P["kernel_normal"]:
+            # a normal call site in the kernel (something a normal proposal can rejuvenate)
+            pre_ = inner["stmts"][-1]["addr"][:-1] if inner["stmts"] else []
+            fs = float_sources([(["p", i], t) for i, t in enumerate(inner["ptypes"])])
+            mu = ["real", fs[rng.randrange(len(fs))][0]] if fs else ["c", 0.3]
+            if not any(s_["addr"] == pre_ + ["zn"] for s_ in inner["stmts"]):
+                inner["stmts"].append({"callee": {"k": "dist", "d": "normal"}, "args": [mu, ["c", round(rng.uniform(0.5, 1.5), 2)]], "addr": pre_ + ["zn"]})
         ins, _ = sig(inner)
         if not any(liftable(t) for t in ins):
             # give it something to map over
